@@ -1,3 +1,900 @@
-//! C15 — not yet built
-use crate::ctx::Ctx;
-pub fn run(c: &mut Ctx) { c.notes.push("C15: not implemented".into()); }
+//! C15 — ToUnicode CMaps decode text as the CMap defines.
+//!
+//! Generator: abstract definition lists (bfchar / bfrange, single / incrementing / array targets,
+//! 1–4-byte codes, overlapping and adjacent definitions in any order) or random mapping *tables*
+//! rendered to definitions with range merging/splitting; rendered to CMap text with random sectioning,
+//! white space, comments, hex case, metadata variants.
+//! Real route: font dictionary with a /ToUnicode stream -> `Dictionary::get_font_encoding` ->
+//! `ToUnicodeCMap::get` (through the `Encoding::UnicodeMapEncoding` pattern), `Document::decode_text`,
+//! and the `Debug` print of the map (the stored runs of the rangemap).
+//! Oracle: `defines` below — the last definition covering the code, offset added to the last unit,
+//! array indexed by the offset; text = std's UTF-16 decoding of the concatenated targets.
+//! It knows nothing about range maps, offsets-as-values or coalescing.
+//! Failures are classified by a *structural* signature computed from the definition list
+//! (which kind of neighbourhood the failing code lives in), so that a failure of a new kind
+//! is still an unlisted violation.
+use crate::codec::*;
+use crate::ctx::{guard, Ctx};
+use crate::rng::Rng;
+use lopdf::{Dictionary, Document, Encoding, Object, Stream};
+use serde_json::json;
+
+
+// ------------------------------------------------------------------ abstract definitions
+
+#[derive(Clone, Debug, PartialEq)]
+enum Def {
+    /// bfchar: code -> dst
+    Char { code: u32, len: u8, dst: Vec<u16> },
+    /// bfrange: lo..=hi -> dsts (one string = incrementing target; several = array)
+    Range { lo: u32, hi: u32, len: u8, dsts: Vec<Vec<u16>> },
+}
+
+#[derive(Clone, Debug)]
+enum Sec { Cs(Vec<(u32, u32, u8)>), Chars(Vec<Def>), Ranges(Vec<Def>) }
+
+impl Def {
+    fn len(&self) -> u8 { match self { Def::Char { len, .. } | Def::Range { len, .. } => *len } }
+    fn lo(&self) -> u32 { match self { Def::Char { code, .. } => *code, Def::Range { lo, .. } => *lo } }
+    fn hi(&self) -> u32 { match self { Def::Char { code, .. } => *code, Def::Range { hi, .. } => *hi } }
+    fn covers(&self, code: u32, len: u8) -> bool { self.len() == len && self.lo() <= code && code <= self.hi() }
+    /// the single-unit case the implementation stores as an offset
+    fn is_single(&self) -> bool {
+        match self { Def::Char { dst, .. } => dst.len() == 1, Def::Range { dsts, .. } => dsts.len() == 1 && dsts[0].len() == 1 }
+    }
+    fn is_array(&self) -> bool { matches!(self, Def::Range { dsts, .. } if dsts.len() > 1) }
+    /// well-formed: non-empty targets, lo<=hi, incrementing target stays within the last unit, array as long as the range
+    fn well_formed(&self) -> bool {
+        match self {
+            Def::Char { dst, .. } => !dst.is_empty(),
+            Def::Range { lo, hi, dsts, .. } => {
+                if hi < lo || dsts.is_empty() || dsts.iter().any(|d| d.is_empty()) { return false; }
+                if dsts.len() == 1 { *dsts[0].last().unwrap() as u64 + (*hi - *lo) as u64 <= 0xFFFF }
+                else { dsts.len() as u64 == (*hi - *lo) as u64 + 1 }
+            }
+        }
+    }
+    /// what the definition says for a covered code (None: the definition itself has no answer — malformed)
+    fn target(&self, code: u32) -> Option<Vec<u16>> {
+        match self {
+            Def::Char { dst, .. } => Some(dst.clone()),
+            Def::Range { lo, dsts, .. } => {
+                let off = (code - lo) as u64;
+                if dsts.len() == 1 {
+                    let mut t = dsts[0].clone();
+                    let last = t.pop()? as u64 + off;
+                    if last > 0xFFFF { return None; }
+                    t.push(last as u16);
+                    Some(t)
+                } else { dsts.get(off as usize).cloned() }
+            }
+        }
+    }
+}
+
+/// THE SPEC: the last definition that covers the code decides.
+fn last_covering<'a>(defs: &'a [Def], code: u32, len: u8) -> Option<&'a Def> { defs.iter().rev().find(|d| d.covers(code, len)) }
+fn defines(defs: &[Def], code: u32, len: u8) -> Option<Option<Vec<u16>>> { last_covering(defs, code, len).map(|d| d.target(code)) }
+
+fn flatten(secs: &[Sec]) -> Vec<Def> {
+    let mut v = vec![];
+    for s in secs { match s { Sec::Cs(_) => {}, Sec::Chars(d) | Sec::Ranges(d) => v.extend(d.iter().cloned()) } }
+    v
+}
+
+// ------------------------------------------------------------------ structural classification
+
+/// what kind of value the definition puts into the interval map (structure of the input, not of the run-time state)
+#[derive(PartialEq, Clone, Debug)]
+enum Stored { Off(u32), Hex(u32, Vec<u16>), Arr(u32, Vec<Vec<u16>>) }
+fn stored_of(d: &Def) -> Stored {
+    match d {
+        Def::Char { code, dst, .. } => if dst.len() == 1 { Stored::Off((dst[0] as u32).wrapping_sub(*code)) } else { Stored::Hex(*code, dst.clone()) },
+        Def::Range { lo, dsts, .. } => if dsts.len() == 1 && dsts[0].len() == 1 { Stored::Off((dsts[0][0] as u32).wrapping_sub(*lo)) }
+            else if dsts.len() == 1 { Stored::Hex(*lo, dsts[0].clone()) } else { Stored::Arr(*lo, dsts.clone()) },
+    }
+}
+/// least code `s <= code` such that every code in `s..=code` is given an equal stored value by its last covering definition
+fn equal_neighbourhood_start(defs: &[Def], code: u32, len: u8) -> u32 {
+    let v = last_covering(defs, code, len).map(stored_of);
+    let mut s = code;
+    let mut steps = 0;
+    while s > 0 && steps < 200_000 {
+        if last_covering(defs, s - 1, len).map(stored_of) != v { break; }
+        s -= 1; steps += 1;
+    }
+    s
+}
+/// structural cause of a wrong answer for `code`: "" = none of the known structures applies
+fn cause(defs: &[Def], code: u32, len: u8) -> String {
+    let Some(d) = last_covering(defs, code, len) else { return String::new() };
+    if d.is_single() { return String::new(); }
+    let kind = if d.is_array() { "array" } else { "multiunit" };
+    let s = equal_neighbourhood_start(defs, code, len);
+    if s < d.lo() { return format!("adjacent-equal-{}", kind); }
+    if s > d.lo() { return format!("overlap-split-{}", if d.is_array() { "array" } else { "range" }); }
+    if !d.well_formed() {
+        return if d.is_array() { "array-shorter-than-range".into() } else { "range-overflows-u16".into() };
+    }
+    String::new()
+}
+
+/// the domain of theorem `cmap_get` (lean/LopdfModel/Thm/C15.lean, `Def.wf`): every definition is well-formed
+fn in_proved_domain(defs: &[Def]) -> bool { defs.iter().all(|d| d.well_formed()) }
+
+// ------------------------------------------------------------------ rendering
+
+fn hex_code(r: &mut Rng, code: u32, len: u8, upper: bool) -> String {
+    let mut s = String::new();
+    for i in (0..len).rev() {
+        let b = (code >> (8 * i as u32)) as u8;
+        if upper { s.push_str(&format!("{:02X}", b)) } else { s.push_str(&format!("{:02x}", b)) }
+    }
+    let _ = r;
+    format!("<{}>", s)
+}
+fn ws0(r: &mut Rng) -> String { match r.below(6) { 0 => "".into(), 1 => "  ".into(), 2 => "\t".into(), _ => " ".into() } }
+fn ws1(r: &mut Rng) -> String { match r.below(5) { 0 => "  ".into(), 1 => "\t".into(), 2 => " \t ".into(), _ => " ".into() } }
+fn ms1(r: &mut Rng) -> String {
+    match r.below(12) { 0 => "\r\n".into(), 1 => "\r".into(), 2 => " \n".into(), 3 => "\n\n".into(), 4 => " % a comment <00> endbfchar\n".into(),
+        5 => "\t\n  ".into(), _ => "\n".into() }
+}
+fn target_text(r: &mut Rng, t: &[u16], upper: bool) -> String {
+    let mut s = String::from("<");
+    for (i, u) in t.iter().enumerate() {
+        if upper { s.push_str(&format!("{:04X}", u)) } else { s.push_str(&format!("{:04x}", u)) }
+        if i + 1 < t.len() { if r.chance(1, 5) { s.push(' '); } } else if r.chance(1, 12) { s.push(' '); }
+    }
+    s.push('>');
+    s
+}
+fn render_def(r: &mut Rng, d: &Def, out: &mut String) {
+    let upper = r.chance(1, 2);
+    out.push_str(&ws0(r));
+    match d {
+        Def::Char { code, len, dst } => {
+            out.push_str(&hex_code(r, *code, *len, upper)); out.push_str(&ws0(r)); out.push_str(&target_text(r, dst, upper));
+        }
+        Def::Range { lo, hi, len, dsts } => {
+            out.push_str(&hex_code(r, *lo, *len, upper)); out.push_str(&ws0(r));
+            out.push_str(&hex_code(r, *hi, *len, upper)); out.push_str(&ws0(r));
+            if dsts.len() == 1 && !r.chance(1, 10) { out.push_str(&target_text(r, &dsts[0], upper)); }
+            else {
+                out.push('['); out.push_str(&ws0(r));
+                for (i, t) in dsts.iter().enumerate() { if i > 0 { out.push_str(&ws1(r)); } out.push_str(&target_text(r, t, upper)); }
+                out.push_str(&ws0(r)); out.push(']');
+            }
+        }
+    }
+    out.push_str(&ms1(r));
+}
+fn render(r: &mut Rng, secs: &[Sec], simple_meta: bool) -> Vec<u8> {
+    let mut s = String::new();
+    if r.chance(1, 4) { s.push_str("%!PS-Adobe-3.0 Resource-CMap\n%%Title: (x)\n\n"); }
+    s.push_str(&format!("/CIDInit{}/{} findresource begin{}", ws0(r), if r.chance(1, 4) { "Procset" } else { "ProcSet" }, ms1(r)));
+    s.push_str(&format!("{} dict begin{}", 1 + r.below(20), ms1(r)));
+    s.push_str(&format!("begincmap{}", ms1(r)));
+    let mut metas: Vec<String> = vec![];
+    if !simple_meta {
+        match r.below(4) {
+            0 => metas.push(format!("/CIDSystemInfo{}<< /Registry (Adobe) /Ordering (UCS) /Supplement 0 >> def{}", if r.chance(1, 2) { "\n" } else { " " }, ms1(r))),
+            1 => metas.push(format!("/CIDSystemInfo <<\n/Registry (Adobe)\n/Ordering (UCS)\n/Supplement 0\n>> def{}", ms1(r))),
+            2 => metas.push(format!("/CIDSystemInfo 3 dict dup begin\n  /Registry (callas) def\n  /Ordering (My-UCMap) def\n  /Supplement 0 def\nend def{}", ms1(r))),
+            _ => {}
+        }
+    }
+    if r.chance(3, 4) { metas.push(format!("/CMapName{}/Adobe-Identity-UCS def{}", ws0(r), ms1(r))); }
+    if r.chance(3, 4) || metas.is_empty() { metas.push(format!("/CMapType {} def{}", 2, ms1(r))); }
+    if r.chance(1, 3) { r.shuffle(&mut metas); }
+    for m in metas { s.push_str(&m); }
+    for sec in secs {
+        match sec {
+            Sec::Cs(rs) => {
+                s.push_str(&format!("{} begincodespacerange{}", rs.len(), ms1(r)));
+                for (lo, hi, len) in rs { s.push_str(&format!("{}{}{}{}{}", ws0(r), hex_code(r, *lo, *len, true), ws0(r), hex_code(r, *hi, *len, true), ms1(r))); }
+                s.push_str(&format!("endcodespacerange{}", ms1(r)));
+            }
+            Sec::Chars(ds) => {
+                s.push_str(&format!("{}{}beginbfchar{}", if r.chance(1, 8) { 100 } else { ds.len() }, ws1(r), ms1(r)));
+                for d in ds { render_def(r, d, &mut s); }
+                s.push_str(&format!("endbfchar{}", ms1(r)));
+            }
+            Sec::Ranges(ds) => {
+                s.push_str(&format!("{}{}beginbfrange{}", ds.len(), ws1(r), ms1(r)));
+                for d in ds { render_def(r, d, &mut s); }
+                s.push_str(&format!("endbfrange{}", ms1(r)));
+            }
+        }
+    }
+    s.push_str(&format!("endcmap{}CMapName currentdict /CMap defineresource pop{}end{}end", ms1(r), ms1(r), ms1(r)));
+    if r.chance(2, 3) { s.push_str("\n"); }
+    if r.chance(1, 6) { s.push_str("\n%%EndResource\n%%EOF\n"); }
+    s.into_bytes()
+}
+
+/// the canonical writer of lean/LopdfModel/Spec/CMapRender.lean, written again here: upper-case hex, one blank
+/// between tokens, LF line ends, count "1", fixed header and trailer
+fn render_canonical(secs: &[Sec]) -> Vec<u8> {
+    let code = |c: u32, len: u8| -> String { format!("<{}>", (0..len).rev().map(|i| format!("{:02X}", (c >> (8 * i as u32)) as u8)).collect::<String>()) };
+    let units = |t: &[u16]| -> String { format!("<{}>", t.iter().map(|u| format!("{:04X}", u)).collect::<String>()) };
+    let mut s = String::from("/CIDInit /ProcSet findresource begin\n12 dict begin\nbegincmap\n/CMapName /Adobe-Identity-UCS def\n/CMapType 2 def\n");
+    for sec in secs {
+        match sec {
+            Sec::Cs(rs) => { s.push_str("1 begincodespacerange\n"); for (lo, hi, len) in rs { s.push_str(&format!("{} {}\n", code(*lo, *len), code(*hi, *len))); } s.push_str("endcodespacerange\n"); }
+            Sec::Chars(ds) => {
+                s.push_str("1 beginbfchar\n");
+                for d in ds { if let Def::Char { code: c, len, dst } = d { s.push_str(&format!("{} {}\n", code(*c, *len), units(dst))); } }
+                s.push_str("endbfchar\n");
+            }
+            Sec::Ranges(ds) => {
+                s.push_str("1 beginbfrange\n");
+                for d in ds { if let Def::Range { lo, hi, len, dsts } = d {
+                    let t = if dsts.len() == 1 { units(&dsts[0]) } else { format!("[{}]", dsts.iter().map(|t| units(t)).collect::<Vec<_>>().join(" ")) };
+                    s.push_str(&format!("{} {} {}\n", code(*lo, *len), code(*hi, *len), t));
+                } }
+                s.push_str("endbfrange\n");
+            }
+        }
+    }
+    s.push_str("endcmap\nCMapName currentdict /CMap defineresource pop\nend\nend\n");
+    s.into_bytes()
+}
+
+// ------------------------------------------------------------------ protocol text
+
+fn code_tok(code: u32, len: u8) -> String { (0..len).rev().map(|i| format!("{:02x}", (code >> (8 * i as u32)) as u8)).collect() }
+fn units_tok(t: &[u16]) -> String { if t.is_empty() { "-".into() } else { t.iter().map(|u| format!("{:04x}", u)).collect() } }
+fn sections_tok(secs: &[Sec]) -> String {
+    let mut s = String::new();
+    for sec in secs {
+        match sec {
+            Sec::Cs(rs) => { s.push_str(&format!("cs {} ", rs.len())); for (lo, hi, len) in rs { s.push_str(&format!("{} {} ", code_tok(*lo, *len), code_tok(*hi, *len))); } }
+            Sec::Chars(ds) => {
+                s.push_str(&format!("bc {} ", ds.len()));
+                for d in ds { if let Def::Char { code, len, dst } = d { s.push_str(&format!("{} {} ", code_tok(*code, *len), units_tok(dst))); } }
+            }
+            Sec::Ranges(ds) => {
+                s.push_str(&format!("br {} ", ds.len()));
+                for d in ds { if let Def::Range { lo, hi, len, dsts } = d {
+                    s.push_str(&format!("{} {} {} ", code_tok(*lo, *len), code_tok(*hi, *len), dsts.len()));
+                    for t in dsts { s.push_str(&units_tok(t)); s.push(' '); }
+                } }
+            }
+        }
+    }
+    s
+}
+
+// ------------------------------------------------------------------ the real code
+
+type GetRes = Result<Option<Vec<u16>>, (String, String)>;
+struct Real { gets: Vec<GetRes>, runs: Option<String>, decodes: Vec<Result<Result<String, String>, (String, String)>>, decode_gets: Vec<Vec<GetRes>> }
+
+fn make_doc(r: &mut Rng, text: &[u8]) -> (Document, Dictionary) {
+    let mut doc = Document::with_version("1.5");
+    let mut st = Stream::new(Dictionary::new(), text.to_vec());
+    if r.chance(1, 4) { let _ = st.compress(); }
+    let sid = doc.add_object(Object::Stream(st));
+    let mut font = Dictionary::new();
+    font.set("Type", Object::Name(b"Font".to_vec()));
+    font.set("Subtype", Object::Name(b"Type0".to_vec()));
+    match r.below(4) {
+        0 => font.set("Encoding", Object::Name(b"Identity-V".to_vec())),
+        1 => {} // missing Encoding: falls back to ToUnicode
+        _ => font.set("Encoding", Object::Name(b"Identity-H".to_vec())),
+    }
+    if r.chance(1, 3) { font.set("ToUnicode", Object::Stream(match doc.get_object(sid) { Ok(Object::Stream(s)) => s.clone(), _ => unreachable!() })); }
+    else { font.set("ToUnicode", Object::Reference(sid)); }
+    (doc, font)
+}
+
+/// run the real code: `None` = the CMap was rejected (`Err`)
+fn run_real(doc: &Document, font: &Dictionary, queries: &[(u32, u8)], inputs: &[Vec<u8>], input_codes: &[Vec<(u32, u8)>]) -> Result<Option<Real>, (String, String)> {
+    let enc = guard(|| font.get_font_encoding(doc))?;
+    let enc = match enc { Ok(e) => e, Err(_) => return Ok(None) };
+    let Encoding::UnicodeMapEncoding(ref m) = enc else { return Err(("?".into(), "not a UnicodeMapEncoding".into())) };
+    let gets = queries.iter().map(|(c, l)| guard(|| m.get(*c, *l))).collect();
+    let runs = guard(|| format!("{:?}", m)).ok();
+    let decodes = inputs.iter().map(|b| guard(|| Document::decode_text(&enc, b).map_err(|e| format!("{:?}", e)))).collect();
+    let decode_gets = input_codes.iter().map(|cs| cs.iter().map(|(c, l)| guard(|| m.get(*c, *l))).collect()).collect();
+    Ok(Some(Real { gets, runs, decodes, decode_gets }))
+}
+
+fn show_get(g: &Result<Option<Vec<u16>>, (String, String)>) -> String {
+    match g { Ok(None) => "-".into(), Ok(Some(v)) => format!("u{}", v.iter().map(|u| format!("{:04x}", u)).collect::<String>()), Err((site, _)) => format!("panic@{}", site) }
+}
+fn show_decode(d: &Result<Result<String, String>, (String, String)>) -> String {
+    match d {
+        Ok(Ok(s)) => { let mut o = String::from("ok"); for ch in s.chars() { o.push_str(&format!(" {:x}", ch as u32)); } o }
+        Ok(Err(e)) => format!("err:{}", e),
+        Err((site, _)) => format!("panic@{}", site),
+    }
+}
+
+// ---- parse the Debug print of ToUnicodeCMap into the protocol's run list
+struct Cur<'a> { s: &'a [u8], i: usize }
+impl<'a> Cur<'a> {
+    fn eat(&mut self, t: &str) -> bool { if self.s[self.i..].starts_with(t.as_bytes()) { self.i += t.len(); true } else { false } }
+    fn num(&mut self) -> Option<u64> {
+        let st = self.i; while self.i < self.s.len() && self.s[self.i].is_ascii_digit() { self.i += 1; }
+        std::str::from_utf8(&self.s[st..self.i]).ok()?.parse().ok()
+    }
+    fn units(&mut self) -> Option<String> { // [1, 2]
+        if !self.eat("[") { return None; }
+        let mut o = String::new();
+        if self.eat("]") { return Some(o); }
+        loop { let n = self.num()?; o.push_str(&format!("{:04x}", n)); if self.eat("]") { break; } if !self.eat(", ") { return None; } }
+        Some(o)
+    }
+    fn target(&mut self) -> Option<String> {
+        if self.eat("HexString { start: ") { let st = self.num()?; if !self.eat(", value: ") { return None; } let u = self.units()?; if !self.eat(" }") { return None; } return Some(format!("h{}:{}", st, u)); }
+        if self.eat("UTF16CodePoint { offset: ") { let n = self.num()?; if !self.eat(" }") { return None; } return Some(format!("c{}", n)); }
+        if self.eat("ArrayOfHexStrings { start: ") {
+            let st = self.num()?;
+            if !self.eat(", values: [") { return None; }
+            let mut parts = vec![];
+            if !self.eat("]") { loop { parts.push(self.units()?); if self.eat("]") { break; } if !self.eat(", ") { return None; } } }
+            if !self.eat(" }") { return None; }
+            return Some(format!("a{}:{}", st, parts.join("/")));
+        }
+        None
+    }
+    fn map(&mut self) -> Option<String> {
+        if !self.eat("{") { return None; }
+        let mut es = vec![];
+        if self.eat("}") { return Some(String::new()); }
+        loop {
+            let lo = self.num()?; if !self.eat("..=") { return None; } let hi = self.num()?; if !self.eat(": ") { return None; }
+            let t = self.target()?; es.push(format!("{}-{}={}", lo, hi, t));
+            if self.eat("}") { break; } if !self.eat(", ") { return None; }
+        }
+        Some(es.join(","))
+    }
+}
+fn runs_of_debug(dbg: &str) -> Option<String> {
+    let mut c = Cur { s: dbg.as_bytes(), i: 0 };
+    if !c.eat("ToUnicodeCMap { bf_ranges: [") { return None; }
+    let mut maps = vec![];
+    for k in 0..4 { let m = c.map()?; maps.push(format!("{}:{}", k + 1, m)); if k < 3 && !c.eat(", ") { return None; } }
+    if !c.eat("] }") { return None; }
+    Some(format!("ok {}", maps.join(" ")))
+}
+
+// ------------------------------------------------------------------ generators
+
+fn max_code(len: u8) -> u32 { if len == 4 { u32::MAX } else { (1u32 << (8 * len as u32)) - 1 } }
+
+fn gen_unit(r: &mut Rng) -> u16 {
+    match r.below(10) {
+        0 => 0x0020 + r.below(0x60) as u16,
+        1 => 0xFFF0 + r.below(16) as u16,
+        2 => 0xD7F0 + r.below(32) as u16,             // around the surrogate boundary
+        3 => 0xE000 + r.below(0x100) as u16,
+        4 => r.below(0x10000) as u16,
+        _ => 0x0041 + r.below(0x40) as u16,
+    }
+}
+fn no_surrogate(u: u16) -> u16 { if (0xD800..0xE000).contains(&u) { 0x263A } else { u } }
+/// a target string: mostly one unit; sometimes ligature-like several units, sometimes a surrogate pair
+fn gen_target(r: &mut Rng, want_multi: bool) -> Vec<u16> {
+    if !want_multi { return vec![no_surrogate(gen_unit(r))]; }
+    match r.below(4) {
+        0 => { let c = 0x10000 + r.below(0x100000) as u32; let c = c - 0x10000; vec![0xD800 + (c >> 10) as u16, 0xDC00 + (c & 0x3FF) as u16] }
+        1 => vec![0x0066, 0x0069],
+        2 => (0..2 + r.usize(3)).map(|_| no_surrogate(gen_unit(r))).collect(),
+        _ => vec![0x0066, 0x0066 + r.below(3) as u16],
+    }
+}
+
+/// a small window of the code space of `len`-byte codes in which the case's definitions live (so that they collide)
+fn gen_base(r: &mut Rng, len: u8) -> u32 {
+    let m = max_code(len);
+    match r.below(6) { 0 => 0, 1 => m.saturating_sub(40), 2 => (m / 2).saturating_sub(20), _ => (r.next() as u32) % (m.saturating_sub(64).max(1)) }
+}
+
+#[derive(Clone, Copy, PartialEq)]
+enum Mode { SingleOnly, Isolated, Wild }
+
+/// definitions over a few windows; `mode` decides what multi-unit / array definitions may touch
+fn gen_defs(r: &mut Rng, mode: Mode) -> Vec<Def> {
+    let nmax = if r.chance(1, 5) { 24 } else { 9 };
+    let n = 1 + r.usize(nmax);
+    let lens: Vec<u8> = { let k = 1 + r.usize(2); (0..k).map(|_| 1 + r.below(4) as u8).collect() };
+    let bases: Vec<(u8, u32)> = lens.iter().map(|l| (*l, gen_base(r, *l))).collect();
+    let mut defs: Vec<Def> = vec![];
+    for _ in 0..n {
+        let (len, base) = *r.pick(&bases);
+        let m = max_code(len);
+        let span = if r.chance(1, 8) { 60 } else { 14 };
+        let lo = base.saturating_add(r.below(span) as u32).min(m);
+        let multi = mode != Mode::SingleOnly && r.chance(if mode == Mode::Wild { 1 } else { 2 }, 3);
+        let d = if r.chance(2, 5) {
+            Def::Char { code: lo, len, dst: gen_target(r, multi) }
+        } else {
+            let width = if !multi && r.chance(1, 12) { r.below(3000) as u32 } else { r.below(7) as u32 };
+            let hi = lo.saturating_add(width).min(m);
+            let w = hi - lo;
+            if multi && r.chance(1, 2) && w >= 1 {
+                Def::Range { lo, hi, len, dsts: (0..=w).map(|_| { let mm = r.chance(1, 2); gen_target(r, mm) }).collect() }
+            } else {
+                let mut t = gen_target(r, multi);
+                // keep the incrementing unit inside u16 (well-formed)
+                let last = *t.last().unwrap();
+                if last as u64 + w as u64 > 0xFFFF { *t.last_mut().unwrap() = (0xFFFF - w.min(0xFFFF)) as u16; }
+                if (0xD800..0xE000).contains(t.last().unwrap()) && t.len() == 1 { *t.last_mut().unwrap() = 0x0100; }
+                Def::Range { lo, hi, len, dsts: vec![t] }
+            }
+        };
+        if mode == Mode::Isolated && !d.is_single() {
+            // keep non-single definitions away from every other definition of the same length (distance >= 2)
+            let touches = |a: &Def, b: &Def| a.len() == b.len() && (a.lo() as u64) <= b.hi() as u64 + 1 && (b.lo() as u64) <= a.hi() as u64 + 1;
+            if defs.iter().any(|e| touches(e, &d)) { continue; }
+        }
+        if mode == Mode::Isolated && d.is_single() {
+            let touches = |a: &Def, b: &Def| a.len() == b.len() && (a.lo() as u64) <= b.hi() as u64 + 1 && (b.lo() as u64) <= a.hi() as u64 + 1;
+            if defs.iter().any(|e| !e.is_single() && touches(e, &d)) { continue; }
+        }
+        // in Wild mode: sometimes repeat the target of an earlier definition next to it (ligature twice, producer habit)
+        let d = if mode == Mode::Wild && r.chance(1, 4) && !defs.is_empty() {
+            let e = r.pick(&defs).clone();
+            match (&e, e.hi() < max_code(e.len())) {
+                (Def::Char { code, len, dst }, true) => Def::Char { code: code + 1, len: *len, dst: dst.clone() },
+                (Def::Range { lo, hi, len, dsts }, true) if (*hi as u64 + 1 + (*hi - *lo) as u64) <= max_code(*len) as u64 =>
+                    Def::Range { lo: hi + 1, hi: hi + 1 + (hi - lo), len: *len, dsts: dsts.clone() },
+                _ => d,
+            }
+        } else { d };
+        defs.push(d);
+    }
+    if defs.is_empty() { defs.push(Def::Char { code: 1, len: 1, dst: vec![0x41] }); }
+    defs
+}
+
+/// random mapping table -> definitions, the way a producer writes them: sorted codes, consecutive codes with
+/// consecutive single-unit targets merged into bfrange, other runs as array ranges or bfchar lines, random splitting
+fn gen_table_defs(r: &mut Rng) -> Vec<Def> {
+    let len = 1 + r.below(2) as u8 + if r.chance(1, 6) { 2 } else { 0 };
+    let base = gen_base(r, len);
+    let m = max_code(len);
+    let n = 2 + r.usize(40);
+    let mut table: Vec<(u32, Vec<u16>)> = vec![];
+    let mut code = base;
+    let mut next_unit = 0x0041 + r.below(0x3000) as u16;
+    for _ in 0..n {
+        let t = match r.below(10) {
+            0 => gen_target(r, true),
+            1 if !table.is_empty() => table.last().unwrap().1.clone(),     // same target again (e.g. two glyphs of one ligature)
+            2 => { next_unit = 0x0041 + r.below(0x3000) as u16; vec![next_unit] }
+            _ => { next_unit = next_unit.wrapping_add(1); vec![no_surrogate(next_unit)] }
+        };
+        table.push((code, t));
+        let step = if r.chance(1, 6) { 2 + r.below(5) as u32 } else { 1 };
+        match code.checked_add(step) { Some(x) if x <= m => code = x, _ => break }
+    }
+    let mut defs = vec![];
+    let mut i = 0;
+    while i < table.len() {
+        // maximal run of consecutive codes
+        let mut j = i;
+        while j + 1 < table.len() && table[j + 1].0 == table[j].0 + 1 && j - i < 30 { j += 1; }
+        // random cut
+        if j > i && r.chance(1, 3) { j = i + r.usize(j - i + 1); }
+        let run = &table[i..=j];
+        let incrementing = run.iter().enumerate().all(|(k, (_, t))| t.len() == run[0].1.len() && t[..t.len() - 1] == run[0].1[..t.len() - 1]
+            && *t.last().unwrap() as u32 == *run[0].1.last().unwrap() as u32 + k as u32);
+        if run.len() == 1 && r.chance(2, 3) { defs.push(Def::Char { code: run[0].0, len, dst: run[0].1.clone() }); }
+        else if incrementing && (run[0].1.len() == 1 || r.chance(1, 2)) { defs.push(Def::Range { lo: run[0].0, hi: run[run.len() - 1].0, len, dsts: vec![run[0].1.clone()] }); }
+        else if run.len() >= 2 && r.chance(1, 2) { defs.push(Def::Range { lo: run[0].0, hi: run[run.len() - 1].0, len, dsts: run.iter().map(|(_, t)| t.clone()).collect() }); }
+        else { for (c, t) in run { defs.push(Def::Char { code: *c, len, dst: t.clone() }); } }
+        i = j + 1;
+    }
+    if r.chance(1, 3) { r.shuffle(&mut defs); }
+    defs
+}
+
+/// damage some definitions the way sloppy producers do — the CMap is still accepted by `from_sections`:
+/// arrays shorter / longer than their range, incrementing targets that run past FFFF, one-entry arrays over wide ranges
+fn make_sloppy(r: &mut Rng, defs: &mut Vec<Def>) {
+    for d in defs.iter_mut() {
+        if !r.chance(1, 2) { continue; }
+        if let Def::Range { lo, hi, len, dsts } = d {
+            match r.below(5) {
+                0 => { if dsts.len() > 1 { let k = 1 + r.usize(dsts.len() - 1); dsts.truncate(k); } }
+                1 => { let extra = 1 + r.usize(3); for _ in 0..extra { let mm = r.chance(1, 2); dsts.push(gen_target(r, mm)); } }
+                2 => { if let Some(t) = dsts.first_mut() { if let Some(l) = t.last_mut() { *l = 0xFFFF - r.below(3) as u16; } } *hi = (*hi).saturating_add(r.below(6) as u32).min(max_code(*len)); }
+                3 => { dsts.truncate(1); *hi = (*hi).saturating_add(1 + r.below(4) as u32).min(max_code(*len)); }
+                _ => { *lo = (*lo).min(*hi); }
+            }
+        }
+    }
+}
+
+/// split a definition list into sections (bfchar lines must be Char, bfrange lines Range); a Char may be rewritten as a 1-wide range
+fn sectionize(r: &mut Rng, defs: &[Def]) -> Vec<Sec> {
+    let mut secs: Vec<Sec> = vec![];
+    if r.chance(3, 4) { secs.push(Sec::Cs(vec![(0, 0xFFFF, 2)])); }
+    for d in defs {
+        let d = match d { Def::Char { code, len, dst } if r.chance(1, 6) => Def::Range { lo: *code, hi: *code, len: *len, dsts: vec![dst.clone()] }, d => d.clone() };
+        let is_char = matches!(d, Def::Char { .. });
+        let fresh = r.chance(1, 5);
+        match secs.last_mut() {
+            Some(Sec::Chars(v)) if is_char && !fresh => v.push(d),
+            Some(Sec::Ranges(v)) if !is_char && !fresh => v.push(d),
+            _ => secs.push(if is_char { Sec::Chars(vec![d]) } else { Sec::Ranges(vec![d]) }),
+        }
+    }
+    if r.chance(1, 8) { secs.push(Sec::Cs(vec![(0, 0xFF, 1), (0x8000, 0xFFFF, 2)])); }
+    secs
+}
+
+fn gen_queries(r: &mut Rng, defs: &[Def]) -> Vec<(u32, u8)> {
+    let mut q: Vec<(u32, u8)> = vec![];
+    for d in defs {
+        let (lo, hi, len) = (d.lo(), d.hi(), d.len());
+        for c in [lo, hi, lo.wrapping_sub(1), hi.wrapping_add(1), lo.wrapping_add(1), hi.wrapping_sub(1)] { if c <= max_code(len) { q.push((c, len)); } }
+        if hi > lo { for _ in 0..3 { q.push((lo + (r.next() as u32) % (hi - lo + 1), len)); } }
+        if r.chance(1, 4) { let l2 = 1 + (len % 4); q.push((lo & max_code(l2), l2)); }       // same (low) number, other length
+    }
+    for _ in 0..3 { let len = 1 + r.below(4) as u8; q.push(((r.next() as u32) & max_code(len), len)); }
+    q.sort(); q.dedup();
+    if q.len() > 120 { r.shuffle(&mut q); q.truncate(120); q.sort(); }
+    q
+}
+
+fn code_bytes(code: u32, len: u8) -> Vec<u8> { (0..len).rev().map(|i| (code >> (8 * i as u32)) as u8).collect() }
+
+/// byte strings over the mapped codes (plus a few with unmapped bytes)
+fn gen_inputs(r: &mut Rng, defs: &[Def]) -> Vec<(Vec<u8>, Vec<(u32, u8)>)> {
+    let mut out = vec![];
+    // raw strings: mapped codes interleaved with arbitrary bytes (unmapped codes, 4-byte flush, trailing partial code);
+    // an empty code list marks them as correspondence-only
+    for _ in 0..2 {
+        let k = 1 + r.usize(6);
+        let mut bytes = vec![];
+        for _ in 0..k {
+            if r.chance(1, 2) {
+                let d = r.pick(defs);
+                let c = d.lo() + if d.hi() > d.lo() { (r.next() as u32) % (d.hi() - d.lo() + 1) } else { 0 };
+                bytes.extend(code_bytes(c, d.len()));
+            } else { let n = 1 + r.usize(5); bytes.extend(r.bytes(n)); }
+        }
+        out.push((bytes, vec![]));
+    }
+    for _ in 0..3 {
+        let k = 1 + r.usize(8);
+        let mut bytes = vec![]; let mut codes = vec![];
+        for _ in 0..k {
+            let d = r.pick(defs);
+            let c = d.lo() + if d.hi() > d.lo() { (r.next() as u32) % (d.hi() - d.lo() + 1) } else { 0 };
+            bytes.extend(code_bytes(c, d.len())); codes.push((c, d.len()));
+        }
+        out.push((bytes, codes));
+    }
+    out
+}
+
+// ------------------------------------------------------------------ one case
+
+struct Stats { strict: bool, canonical: bool }
+
+fn check_case(c: &mut Ctx, r: &mut Rng, stream: &str, secs: &[Sec], st: Stats, simple_meta: bool) {
+    let defs = flatten(secs);
+    // inside the domain of the theorem every failure is a violation, whatever the stream
+    let st = Stats { strict: st.strict || in_proved_domain(&defs), canonical: st.canonical };
+    c.count(if st.strict { "cases.in_proved_domain" } else { "cases.outside_proved_domain" });
+    let text = if st.canonical { render_canonical(secs) } else { render(r, secs, simple_meta) };
+    let queries = gen_queries(r, &defs);
+    let inputs = gen_inputs(r, &defs);
+    let (doc, font) = make_doc(r, &text);
+    let input_bytes: Vec<Vec<u8>> = inputs.iter().map(|(b, _)| b.clone()).collect();
+    c.count(&format!("{}.cases", stream));
+    let secs_tok = sections_tok(secs);
+    let qtok: String = queries.iter().map(|(code, len)| format!(" {}", code_tok(*code, *len))).collect();
+    let req_get = format!("cmap_get {}q{}", secs_tok, qtok);
+    let req_tget = format!("cmap_text_get {} q{}", hex_tok(&text), qtok);
+    c.nontrivial(&req_get);
+    if st.canonical { c.corr(format!("cmap_render {}", secs_tok.trim_end()), format!("ok {}", hex_tok(&text))); }
+    for d in &defs {
+        c.count(if d.is_single() { "defs.single" } else if d.is_array() { "defs.array" } else { "defs.multiunit" });
+        c.count(&format!("defs.len{}", d.len()));
+    }
+    let case = || json!({"stream": stream, "sections": secs_tok, "cmap_text": String::from_utf8_lossy(&text)});
+    let input_codes: Vec<Vec<(u32, u8)>> = inputs.iter().map(|(_, cs)| cs.clone()).collect();
+    let real = match run_real(&doc, &font, &queries, &input_bytes, &input_codes) {
+        Err((site, msg)) => { c.oracle_fail(&format!("panic-in-parse@{}", site), &msg, case()); return; }
+        Ok(None) => {
+            c.corr(req_get, "err".into()); c.corr(req_tget, "err".into());
+            c.count(&format!("{}.rejected", stream));
+            let all_ok = defs.iter().all(|d| d.hi() >= d.lo() && match d { Def::Range { dsts, .. } => !dsts.is_empty(), _ => true });
+            if all_ok { c.oracle_fail("well-formed-cmap-rejected", "get_font_encoding rejected a well-formed CMap", case()); }
+            return;
+        }
+        Ok(Some(real)) => real,
+    };
+    // ---- correspondence: lookups, stored runs, decoding; structured sections and the model's own parse of the text
+    let reply_get = format!("ok{}", real.gets.iter().map(|g| format!(" {}", show_get(g))).collect::<String>());
+    c.corr(req_get, reply_get.clone());
+    c.corr(req_tget, reply_get);
+    match real.runs.as_deref().and_then(runs_of_debug) {
+        Some(runs) => { c.corr(format!("cmap_runs {}", secs_tok), runs.clone()); c.corr(format!("cmap_text_runs {}", hex_tok(&text)), runs); }
+        None => c.oracle_fail("debug-print-unparsed", "could not read the Debug print of the map", json!({"debug": real.runs})),
+    }
+    for ((bytes, _), d) in inputs.iter().zip(real.decodes.iter()) {
+        c.corr(format!("cmap_decode {}q {}", secs_tok, hex_tok(bytes)), show_decode(d));
+    }
+    // ---- oracle: lookups
+    for ((code, len), g) in queries.iter().zip(real.gets.iter()) {
+        let want = defines(&defs, *code, *len);
+        let verdict: Option<(&str, String)> = match (&want, g) {
+            (None, Ok(None)) => { c.count("get.unmapped"); None }
+            (Some(Some(w)), Ok(Some(v))) if w == v => { c.count("get.mapped_ok"); None }
+            (Some(None), _) => { // the definition itself is malformed at this code: only panics are our business
+                match g { Err((site, _)) => Some(("panic", site.clone())), _ => { c.count("get.malformed_def_no_panic"); None } }
+            }
+            (_, Err((site, _))) => Some(("panic", site.clone())),
+            _ => Some(("value", String::new())),
+        };
+        if let Some((kind, site)) = verdict {
+            let cz = cause(&defs, *code, *len);
+            let sig = match (kind, cz.as_str()) {
+                ("value", "") => "unexplained-wrong-target".to_string(),
+                ("value", z) => z.to_string(),
+                (_, "") => format!("panic@{}", site),
+                (_, z) => format!("{}/panic@{}", z, site),
+            };
+            let sig = if st.strict { c.count("strict.failures"); format!("proved-domain:{}", sig) } else { sig };
+            c.oracle_fail(&sig, &format!("get({:#x},{}) = {} but the CMap defines {:?}", code, len, show_get(g), want),
+                json!({"stream": stream, "sections": secs_tok, "code": code_tok(*code, *len), "cmap_text": String::from_utf8_lossy(&text)}));
+        }
+    }
+    // ---- oracle: decoding of strings of mapped, prefix-free codes
+    for (k, ((bytes, codes), d)) in inputs.iter().zip(real.decodes.iter()).enumerate() {
+        if codes.is_empty() { c.count("decode.raw_bytes"); if matches!(d, Ok(Ok(s)) if s.contains('\u{FFFD}')) { c.count("decode.raw_with_replacement"); } continue; }
+        let prefix_free = codes.iter().all(|(code, len)| (1..*len).all(|l| defines(&defs, code >> (8 * (*len - l) as u32), l).is_none()));
+        if !prefix_free { c.count("decode.not_prefix_free"); continue; }
+        let targets: Vec<Option<Option<Vec<u16>>>> = codes.iter().map(|(code, len)| defines(&defs, *code, *len)).collect();
+        if targets.iter().any(|t| !matches!(t, Some(Some(_)))) { c.count("decode.malformed_def"); continue; }
+        let per_code: Vec<Vec<u16>> = targets.into_iter().map(|t| t.unwrap().unwrap()).collect();
+        let units: Vec<u16> = per_code.iter().flatten().cloned().collect();
+        let want: String = char::decode_utf16(units.iter().cloned()).map(|x| x.unwrap_or('\u{FFFD}')).collect();
+        let got = match d { Ok(Ok(s)) => Some(s.clone()), _ => None };
+        if got.as_deref() == Some(want.as_str()) {
+            c.count("decode.ok");
+            if units.iter().any(|u| (0xD800..0xDC00).contains(u)) { c.count("decode.with_surrogate_pair"); }
+            if codes.iter().map(|x| x.1).collect::<std::collections::BTreeSet<_>>().len() > 1 { c.count("decode.mixed_code_lengths"); }
+            continue;
+        }
+        // classify by the first code whose own lookup is not what the CMap defines; if every lookup is right the
+        // fault is in segmentation / UTF-16 decoding (BOM sniffing is the one known structure there)
+        let first_bad = codes.iter().zip(per_code.iter()).zip(real.decode_gets[k].iter()).find(|((_, w), g)| !matches!(g, Ok(Some(v)) if v == *w));
+        let sig = match first_bad {
+            Some((((code, len), _), g)) => {
+                let z = cause(&defs, *code, *len);
+                let p = match g { Err((site, _)) => format!("/panic@{}", site), _ => String::new() };
+                if z.is_empty() { format!("unexplained-wrong-text{}", p) } else { format!("{}{}", z, p) }
+            }
+            None => if units.first() == Some(&0xFEFF) || units.first() == Some(&0xFFFE) || (units.len() >= 2 && units[0] == 0xEFBB && units[1] >> 8 == 0xBF) {
+                "bom-sniffed-output".to_string() } else { "unexplained-wrong-text".to_string() },
+        };
+        let sig = if st.strict { c.count("strict.failures"); format!("proved-domain:{}", sig) } else { sig };
+        c.oracle_fail(&sig, &format!("decode_text({}) = {} but the CMap defines {:?}", hex(bytes), show_decode(d), want),
+            json!({"stream": stream, "sections": secs_tok, "bytes": hex(bytes), "cmap_text": String::from_utf8_lossy(&text)}));
+    }
+    c.sample(json!({"stream": stream, "definitions": defs.len(), "sections": if secs_tok.len() < 300 { secs_tok.clone() } else { format!("{}…", &secs_tok[..300]) }}));
+}
+
+/// a fixed witness: returns (get replies, decode reply)
+fn run_witness(secs: &[Sec], queries: &[(u32, u8)], input: &[u8]) -> (Vec<String>, String) {
+    let mut r = Rng::new(7);
+    let text = render(&mut r, secs, true);
+    let (doc, font) = make_doc(&mut Rng::new(1), &text);
+    match run_real(&doc, &font, queries, &[input.to_vec()], &[]) {
+        Ok(Some(real)) => (real.gets.iter().map(show_get).collect(), show_decode(&real.decodes[0])),
+        Ok(None) => (vec!["err".into()], "err".into()),
+        Err((site, _)) => (vec![format!("panic@{}", site)], "err".into()),
+    }
+}
+
+fn ch(code: u32, len: u8, dst: &[u16]) -> Def { Def::Char { code, len, dst: dst.to_vec() } }
+fn rg(lo: u32, hi: u32, len: u8, dsts: &[&[u16]]) -> Def { Def::Range { lo, hi, len, dsts: dsts.iter().map(|d| d.to_vec()).collect() } }
+
+/// The canonical witnesses of the (now fixed) findings F-C15-a..e, re-run on every check as regression cases:
+/// `reproduced` = the real code again answers something other than what the CMap defines.
+fn witnesses(c: &mut Ctx) {
+    let mut one = |c: &mut Ctx, id: &str, what: &str, secs: Vec<Sec>, queries: Vec<(u32, u8)>, want_gets: Vec<&str>, input: Vec<u8>, want_decode: &str| {
+        let (g, d) = run_witness(&secs, &queries, &input);
+        let ok = g.iter().map(|x| x.as_str()).collect::<Vec<_>>() == want_gets && d == want_decode;
+        c.witness(id, !ok, &format!("{}: get = {:?} (defined {:?}), decode {} = {} (defined {})", what, g, want_gets, hex(&input), d, want_decode));
+        let qtok: String = queries.iter().map(|(code, len)| format!(" {}", code_tok(*code, *len))).collect();
+        c.corr(format!("cmap_get {}q{}", sections_tok(&secs), qtok), format!("ok{}", g.iter().map(|x| format!(" {}", x)).collect::<String>()));
+        c.corr(format!("cmap_decode {}q {}", sections_tok(&secs), hex_tok(&input)), d);
+    };
+    // F-C15-a: two adjacent codes with the same ligature target
+    one(c, "F-C15-a", "<01>,<02> -> <00660069>", vec![Sec::Chars(vec![ch(1, 1, &[0x66, 0x69]), ch(2, 1, &[0x66, 0x69])])],
+        vec![(1, 1), (2, 1)], vec!["u00660069", "u00660069"], vec![1, 2], "ok 66 69 66 69");
+    // F-C15-b: a later bfchar inside an incrementing multi-unit range must not shift the rest of the range
+    one(c, "F-C15-b", "<10><13> <00410042> then <11> <0058>", vec![Sec::Ranges(vec![rg(0x10, 0x13, 1, &[&[0x41, 0x42]])]), Sec::Chars(vec![ch(0x11, 1, &[0x58])])],
+        vec![(0x10, 1), (0x11, 1), (0x12, 1), (0x13, 1)], vec!["u00410042", "u0058", "u00410044", "u00410045"], vec![0x12], "ok 41 44");
+    one(c, "F-C15-b", "array range <10><12> then <10> <0058>", vec![Sec::Ranges(vec![rg(0x10, 0x12, 1, &[&[0x41, 0x41], &[0x42, 0x42], &[0x43, 0x43]])]), Sec::Chars(vec![ch(0x10, 1, &[0x58])])],
+        vec![(0x10, 1), (0x11, 1), (0x12, 1)], vec!["u0058", "u00420042", "u00430043"], vec![0x11], "ok 42 42");
+    // F-C15-c: two adjacent array ranges with equal arrays; an array shorter than its range (malformed: unmapped, no panic)
+    one(c, "F-C15-c", "adjacent equal arrays", vec![Sec::Ranges(vec![rg(1, 2, 1, &[&[0x41, 0x41], &[0x42, 0x42]]), rg(3, 4, 1, &[&[0x41, 0x41], &[0x42, 0x42]])])],
+        vec![(3, 1), (4, 1)], vec!["u00410041", "u00420042"], vec![3], "ok 41 41");
+    one(c, "F-C15-c", "array shorter than its range", vec![Sec::Ranges(vec![rg(1, 3, 1, &[&[0x41], &[0x42]])])],
+        vec![(2, 1), (3, 1)], vec!["u0042", "-"], vec![2], "ok 42");
+    // F-C15-d: coalesced equal targets ending in FFFF
+    one(c, "F-C15-d", "<01>,<02> -> <0041FFFF>", vec![Sec::Chars(vec![ch(1, 1, &[0x41, 0xFFFF]), ch(2, 1, &[0x41, 0xFFFF])])],
+        vec![(2, 1)], vec!["u0041ffff"], vec![2], "ok 41 ffff");
+    // F-C15-e: text starting with U+FFFE / U+FEFF
+    let bom = vec![Sec::Chars(vec![ch(1, 1, &[0xFFFE]), ch(2, 1, &[0x41]), ch(3, 1, &[0xFEFF])])];
+    one(c, "F-C15-e", "<01>-><FFFE>, <02>-><0041>", bom.clone(), vec![], vec![], vec![1, 2], "ok fffe 41");
+    one(c, "F-C15-e", "<03>-><FEFF>, <02>-><0041>", bom, vec![], vec![], vec![3, 2], "ok feff 41");
+}
+
+/// text-level malformed stream: one byte edit in the section part; only model/implementation correspondence and "no panic"
+fn malformed_case(c: &mut Ctx, r: &mut Rng) {
+    let defs = gen_defs(r, Mode::SingleOnly);
+    let secs = sectionize(r, &defs);
+    let mut text = render(r, &secs, true);
+    let start = text.windows(9).position(|w| w == b"begincmap").unwrap_or(0);
+    let n_edit = 1 + r.usize(2);
+    for _ in 0..n_edit {
+        let pos = start + r.usize(text.len() - start);
+        match r.below(7) {
+            4 => { // drop one hex byte of a <..> token (code length mismatch, odd-length target …)
+                if let Some(q) = (pos..text.len().saturating_sub(2)).find(|&q| text[q] == b'<' && text[q + 1].is_ascii_hexdigit()) { text.remove(q + 1); text.remove(q + 1); } }
+            5 => { // duplicate one hex byte of a <..> token
+                if let Some(q) = (pos..text.len().saturating_sub(2)).find(|&q| text[q] == b'<' && text[q + 1].is_ascii_hexdigit()) { let (a, b) = (text[q + 1], text[q + 2]); text.insert(q + 1, b); text.insert(q + 1, a); } }
+            6 => { // remove a whole run of blanks
+                if let Some(q) = (pos..text.len()).find(|&q| text[q] == b' ' || text[q] == b'\t') { while q < text.len() && (text[q] == b' ' || text[q] == b'\t') { text.remove(q); } } }
+            0 => { text.remove(pos); }
+            1 => { let b = *r.pick(b"<>[] \n0aG%/"); text.insert(pos, b); }
+            2 => { text[pos] = *r.pick(b"<>[] \n0aGf"); }
+            _ => { let p2 = start + r.usize(text.len() - start); text.swap(pos, p2); }
+        }
+    }
+    let queries = gen_queries(r, &defs);
+    let (doc, font) = make_doc(r, &text);
+    let qtok: String = queries.iter().map(|(code, len)| format!(" {}", code_tok(*code, *len))).collect();
+    let req = format!("cmap_text_get {} q{}", hex_tok(&text), qtok);
+    c.nontrivial(&req);
+    c.count("malformed.cases");
+    match run_real(&doc, &font, &queries, &[], &[]) {
+        Err((site, msg)) => c.oracle_fail(&format!("panic-in-parse@{}", site), &msg, json!({"cmap_text": String::from_utf8_lossy(&text)})),
+        Ok(None) => { c.count("malformed.rejected"); c.corr(req, "err".into()); }
+        Ok(Some(real)) => {
+            c.count("malformed.accepted");
+            c.corr(req, format!("ok{}", real.gets.iter().map(|g| format!(" {}", show_get(g))).collect::<String>()));
+            if let Some(runs) = real.runs.as_deref().and_then(runs_of_debug) { c.corr(format!("cmap_text_runs {}", hex_tok(&text)), runs); }
+        }
+    }
+}
+
+/// one bfchar / bfrange line written at (and just beyond) the edges of the grammar
+fn quirky_line(r: &mut Rng, q: u64) -> (bool, String) {
+    let t = |u: u16| format!("{:04x}", u);
+    let many = |n: usize| (0..n).map(|i| format!("{:04X}", 0x4E00 + i)).collect::<String>();
+    match q {
+        0 => (false, "<10> <11> [<0041><0042>]\n".into()),                 // array elements touching
+        1 => (false, "<10> <11> [<0041>\t<0042>]\n".into()),               // tab separator
+        2 => (false, "<10> <11> [<0041>\n<0042>]\n".into()),               // newline inside an array
+        3 => (false, "<10> <11> [ ]\n".into()),                            // empty array
+        4 => (false, "<10> <11> [<0041> <0042> <0043>]\n".into()),          // array longer than the range
+        5 => (false, format!("<20> <21> <{} {}\n{} % c\n>\n", t(0x41), t(0x42), t(0x43))),  // white space / comment inside a target
+        6 => (true, "<20> < 0041>\n".into()),                              // blank after '<'
+        7 => (true, "<0000000001> <0041>\n".into()),                       // 5-byte code
+        8 => (true, "<> <0041>\n".into()),                                 // empty code
+        9 => (true, format!("<30> <{}>\n", many(257))),                    // 257 units
+        10 => (true, format!("<30> <{}>\n", many(256))),                   // 256 units
+        11 => (true, "<30> <0041><31> <0042>\n".into()),                   // no separator between two lines
+        12 => (true, "<30>\n<0041>\n".into()),                             // newline between code and target
+        13 => (false, "<0030> <31> <0041>\n".into()),                      // lo / hi of different length
+        14 => (true, "<30> <004>\n".into()),                               // odd number of hex digits
+        15 => (true, "<30> <00410>\n".into()),
+        16 => (false, "<30><32><00410042>% x\n".into()),                   // comment directly after the line
+        17 => (false, "<32> <30> <0041>\n".into()),                        // hi < lo: InvalidCodeRange
+        18 => (false, "<30> <32> [<0041>] \n".into()),                     // one-element array over a wider range
+        19 => (true, "<30>  \t <D83DDE00>  \r\n".into()),
+        20 => (false, "<30> <32> [<0041> <0042> <0043> ]\n".into()),
+        21 => (false, "<30> <32> [  <0041>  <0042>  <0043>]\n".into()),
+        22 => (true, "<3g> <0041>\n".into()),                              // not hex
+        _ => { let _ = r; (true, "<30> <0041> <0042>\n".into()) }          // a third token on a bfchar line
+    }
+}
+const N_QUIRKS: u64 = 24;
+
+/// grammar-boundary stream: a valid CMap with one quirky line; correspondence of accept/reject, lookups and stored runs
+fn grammar_case(c: &mut Ctx, r: &mut Rng, q: u64) {
+    let (is_char, line) = quirky_line(r, q);
+    let before = r.below(3); let after = r.below(3);
+    let mut body = String::new();
+    let (kw_b, kw_e) = if is_char { ("beginbfchar", "endbfchar") } else { ("beginbfrange", "endbfrange") };
+    body.push_str(&format!("{} {}\n", 1 + before + after, kw_b));
+    let mut filler = |r: &mut Rng, body: &mut String, k: u64| {
+        let code = 0x40 + k as u32 * 3;
+        let d = if is_char { ch(code, 1, &[0x61 + k as u16]) } else { rg(code, code + 1, 1, &[&[0x61 + k as u16]]) };
+        render_def(r, &d, body);
+    };
+    for k in 0..before { filler(r, &mut body, k); }
+    body.push_str(&line);
+    for k in 0..after { filler(r, &mut body, 10 + k); }
+    body.push_str(&format!("{}\n", kw_e));
+    let text = format!("/CIDInit /ProcSet findresource begin\n12 dict begin\nbegincmap\n/CMapType 2 def\n{}endcmap\nCMapName currentdict /CMap defineresource pop\nend\nend\n", body).into_bytes();
+    let mut queries: Vec<(u32, u8)> = vec![];
+    for code in [0x0f, 0x10, 0x11, 0x12, 0x1f, 0x20, 0x21, 0x22, 0x2f, 0x30, 0x31, 0x32, 0x33, 0x40, 0x41, 0x42, 0x5e, 0x5f] { queries.push((code, 1)); }
+    queries.push((0x30, 2)); queries.push((1, 4));
+    let (doc, font) = make_doc(r, &text);
+    let qtok: String = queries.iter().map(|(code, len)| format!(" {}", code_tok(*code, *len))).collect();
+    let req = format!("cmap_text_get {} q{}", hex_tok(&text), qtok);
+    c.nontrivial(&req);
+    c.count("grammar.cases");
+    match run_real(&doc, &font, &queries, &[], &[]) {
+        Err((site, msg)) => c.oracle_fail(&format!("panic-in-parse@{}", site), &msg, json!({"cmap_text": String::from_utf8_lossy(&text)})),
+        Ok(None) => { c.count(&format!("grammar.q{}.rejected", q)); c.corr(req, "err".into()); }
+        Ok(Some(real)) => {
+            c.count(&format!("grammar.q{}.accepted", q));
+            c.corr(req, format!("ok{}", real.gets.iter().map(|g| format!(" {}", show_get(g))).collect::<String>()));
+            if let Some(runs) = real.runs.as_deref().and_then(runs_of_debug) { c.corr(format!("cmap_text_runs {}", hex_tok(&text)), runs); }
+        }
+    }
+}
+
+pub fn run(c: &mut Ctx) {
+    if let Err((site, msg)) = guard(std::panic::AssertUnwindSafe(|| run_inner(c))) { eprintln!("harness panic at {}: {}", site, msg); std::process::exit(3); }
+}
+fn run_inner(c: &mut Ctx) {
+    c.rule = "definition lists (bfchar/bfrange; single-unit, multi-unit incrementing, array and surrogate-pair targets; 1-4-byte codes; \
+overlapping/adjacent definitions in any order inside small windows of the code space incl. both ends) and random mapping tables rendered \
+with range merging/splitting; CMap text with random sectioning, white space, comments, hex case, metadata variants; lookups at every range \
+end +-1 and inside, other code lengths, unmapped codes; byte strings over mapped codes. Streams: single (single-unit targets only, strict), \
+isolated (non-single definitions touch nothing), wild and table (anything well-formed: equal adjacent targets, later definitions inside ranges …), sloppy (accepted but malformed targets: short/long arrays, ranges past FFFF; no-panic + correspondence), canonical (the writer of theorem cmap_parse_render), malformed (byte / hex-byte / blank-run \
+edits) and grammar (24 lines at and beyond the edges of the grammar) — correspondence only. Non-trivial = every case; distinct by request text.".into();
+    witnesses(c);
+    for i in 0..c.n(2000, 40000) {
+        let Some(mut r) = c.case("single", i) else { continue };
+        let defs = gen_defs(&mut r, Mode::SingleOnly);
+        let secs = sectionize(&mut r, &defs);
+        check_case(c, &mut r, "single", &secs, Stats { strict: true, canonical: false }, false);
+    }
+    for i in 0..c.n(1600, 30000) {
+        let Some(mut r) = c.case("isolated", i) else { continue };
+        let defs = gen_defs(&mut r, Mode::Isolated);
+        let secs = sectionize(&mut r, &defs);
+        check_case(c, &mut r, "isolated", &secs, Stats { strict: true, canonical: false }, false);
+    }
+    for i in 0..c.n(1600, 30000) {
+        let Some(mut r) = c.case("wild", i) else { continue };
+        let defs = gen_defs(&mut r, Mode::Wild);
+        let secs = sectionize(&mut r, &defs);
+        check_case(c, &mut r, "wild", &secs, Stats { strict: false, canonical: false }, false);
+    }
+    for i in 0..c.n(1200, 25000) {
+        let Some(mut r) = c.case("table", i) else { continue };
+        let defs = gen_table_defs(&mut r);
+        let secs = sectionize(&mut r, &defs);
+        check_case(c, &mut r, "table", &secs, Stats { strict: false, canonical: false }, false);
+    }
+    for i in 0..c.n(1500, 25000) {
+        let Some(mut r) = c.case("malformed", i) else { continue };
+        malformed_case(c, &mut r);
+    }
+    // accepted but malformed targets: no panic (theorem cmap_get_no_panic), model/implementation correspondence
+    for i in 0..c.n(800, 15000) {
+        let Some(mut r) = c.case("sloppy", i) else { continue };
+        let mut defs = gen_defs(&mut r, Mode::Wild);
+        make_sloppy(&mut r, &mut defs);
+        let secs = sectionize(&mut r, &defs);
+        check_case(c, &mut r, "sloppy", &secs, Stats { strict: false, canonical: false }, true);
+    }
+    // the canonical writer of Spec/CMapRender.lean (theorem cmap_parse_render): same text from both sides, read by the real parser
+    for i in 0..c.n(400, 6000) {
+        let Some(mut r) = c.case("canonical", i) else { continue };
+        let defs = gen_defs(&mut r, if i % 2 == 0 { Mode::Isolated } else { Mode::SingleOnly });
+        let secs = sectionize(&mut r, &defs);
+        check_case(c, &mut r, "canonical", &secs, Stats { strict: true, canonical: true }, true);
+    }
+    for i in 0..c.n(3 * N_QUIRKS, 40 * N_QUIRKS) {
+        let Some(mut r) = c.case("grammar", i) else { continue };
+        grammar_case(c, &mut r, i % N_QUIRKS);
+    }
+}
